@@ -298,6 +298,21 @@ def h_update_rejects(I):
             ('an accepted value is the value in effect', raised or EQ(cfg.fixt, val, tol=0.0))]
 
 
+def h_method_in_effect(I):
+    """the integration method named in the configuration when the simulation is initialised is the one that integrates"""
+    from vlib import cases as CS
+    out = []
+    for name, cls in (('backeuler', 'BackEuler'), ('trapezoid', 'Trapezoid')):
+        ss = CS.build([1, 2], lines=[(1, 2)], slacks=[dict(bus=1, idx='S')], pqs=[dict(bus=2, idx='D', p0=0.1, q0=0.0)], setup=False)
+        ss.setup()
+        ss.PFlow.run()
+        ss.TDS.config.no_tqdm = 1
+        ss.TDS.config.method = name              # changed after construction, before the run
+        ss.TDS.init()
+        out.append((f'TDS.config.method = {name!r} set before initialisation is the method in effect', type(ss.TDS.method).__name__ == cls))
+    return out
+
+
 def job(spec):
     import logging
     logging.getLogger('andes').setLevel(60)
@@ -308,6 +323,8 @@ def job(spec):
         return H.run(f'config precedence [option section in file={arg[0]}, two options={arg[1]}]', h_precedence(*arg), region=lambda v, c: c)
     if kind == 'two':
         return H.run('two systems from one rc file', h_two_systems, region=lambda v, c: c)
+    if kind == 'method':
+        return H.run('TDS.config.method changed after construction', h_method_in_effect, region=lambda v, c: c)
     if kind == 'updrej':
         return H.run('Config.update with a value outside the alternatives', h_update_rejects, region=lambda v, c: c)
     if kind == 'collect':
@@ -336,7 +353,7 @@ def main():
               'float(repr(x)) == x is trusted (Python)', 'language model of int()/float() restricted to ASCII')
     ck.out('reading/writing the rc file itself (file I/O)', 'values of ~400 fields are covered structurally, not one by one')
     jobs = [('ch', j) for j in crosshair_jobs(to)]
-    jobs += [('prec', (a, b)) for a in (True, False) for b in (True, False)] + [('two', 0)] + [('collect', h) for h in ('attribute', 'update')] + [('updrej', 0)]
+    jobs += [('prec', (a, b)) for a in (True, False) for b in (True, False)] + [('two', 0)] + [('collect', h) for h in ('attribute', 'update')] + [('updrej', 0), ('method', 0)]
     alts = []
     for owner, cfg in all_configs():
         for key, alt in cfg._alt.items():
